@@ -398,3 +398,35 @@ def finish(prop: str, tier: str, seed: int, t0: float, lean: dict, res: Result, 
           f"violations={len(res.violations)} known={len(res.known)} wall={ev['wall_s']}s -> exit {status}")
     sys.stdout.flush()
     return status
+
+
+# --------------------------------------------------------------------------- float <-> protocol helpers
+import struct  # noqa: E402
+
+
+def fbits(x: float) -> str:
+    """a Python float as the decimal value of its IEEE-754 bit pattern (the protocol's float format)"""
+    return str(struct.unpack("<Q", struct.pack("<d", float(x)))[0])
+
+
+def bitsf(s: str) -> float:
+    return struct.unpack("<d", struct.pack("<Q", int(s)))[0]
+
+
+def fl(xs) -> str:
+    xs = list(xs)
+    return ",".join(fbits(x) for x in xs) if xs else "-"
+
+
+def lf(s: str) -> list[float]:
+    return [] if s == "-" else [bitsf(t) for t in s.split(",")]
+
+
+def close(a: float, b: float, rel: float = 1e-9, abs_: float = 0.0) -> bool:
+    import math
+
+    if math.isnan(a) or math.isnan(b):
+        return math.isnan(a) and math.isnan(b)
+    if math.isinf(a) or math.isinf(b):
+        return a == b
+    return abs(a - b) <= max(abs_, rel * max(abs(a), abs(b)))
